@@ -249,3 +249,72 @@ func TestKnown_C02_stale_update_after_select(t *testing.T) {
 		t.Fatalf("C02 violated (stale update after SELECT, not listed as known): session sees %v, a new session sees %v\n%s", view, fresh, b.Hist)
 	}
 }
+
+// fixed (829162d): another session moves a message onto its own mailbox (EXPUNGE + EXISTS for the observer), then the
+// message's flags change. An observer whose next command may not send EXPUNGE held back the EXPUNGE and the EXISTS but
+// applied the flag change to the old instance; the new instance then entered its view with the outdated flags.
+func TestRegress_FlagChangeOfReaddedMessageBehindHeldExpunge(t *testing.T) {
+	b, err := bed.Start(bed.Options{}, bed.UserSpec{Name: "user", Pass: "pass"})
+	if err != nil {
+		t.Fatal(err)
+	}
+
+	defer b.Destroy()
+
+	u := b.Users[0]
+
+	obs, err := b.Login("obs", u)
+	if err != nil {
+		t.Fatal(err)
+	}
+
+	defer obs.Logout()
+
+	act, err := b.Login("act", u)
+	if err != nil {
+		t.Fatal(err)
+	}
+
+	defer act.Logout()
+
+	m, mc, err := u.Conn.NewRemoteMessage(mach.Msg("r1", ""), imap.NewFlagSet(imap.FlagDraft), time.Unix(1600000000, 0), u.Inbox.ID)
+	if err != nil {
+		t.Fatal(err)
+	}
+
+	if d := b.DeliverNow(u, imap.NewMessagesCreated(false, mc)); d[0].Err != nil {
+		t.Fatal(d[0].Err)
+	}
+
+	obs.Select("INBOX", false)
+	act.Select("INBOX", false)
+
+	if r := act.Do("MOVE 1 INBOX"); !r.OK() {
+		t.Fatal(r)
+	}
+
+	b.DeliverNow(u, imap.NewMessageFlagsUpdated(m.ID, imap.NewFlagSet(imap.FlagSeen)))
+
+	if err := b.Barrier(u); err != nil {
+		t.Fatal(err)
+	}
+
+	// a command that may not send EXPUNGE, then one that may
+	obs.Do("FETCH 1 (UID)")
+	obs.Do("NOOP")
+
+	var view []bed.PMsg
+
+	if _, err := obs.Probe(func(m []bed.PMsg) error { view = m; return nil }); err != nil {
+		t.Fatal(err)
+	}
+
+	fresh, _, _, _, err := b.FreshView(u, "INBOX", false)
+	if err != nil {
+		t.Fatal(err)
+	}
+
+	if len(view) != len(fresh) || len(view) != 1 || !imapc.SameFlags(imapc.WithoutFlag(view[0].Flags, `\recent`), fresh[0].Flags) {
+		t.Fatalf("C02 violated: observer sees %v, a new session sees %v\n%s", view, fresh, b.Hist)
+	}
+}
